@@ -57,6 +57,9 @@ def obligations(tier, seed):
         if tier != 'quick' or nm in ('add', 'sub', 'tagged-hash', 'echo', 'len'): add('tf/%s/two-arguments-sym1' % nm, kind='tfline', line=[nm, ('sym', 1), ('sym', 1)])
     for ln in ([], ['-h'], ['nosuchfunction', 'x'], [('sym', 2)], ['hex', '0x'], ['hex', '[', ']'], ['add', '0x01', '0x02', '0x03', '0x04'], ['reverse', '""'], ['len', "'"]):
         add('tf/line/%s' % ' '.join(x if isinstance(x, str) else '?' * x[1] for x in ln), kind='tfline', line=ln)
+    # long base-58 strings made of the largest digit (seed C15-6: the decoder's work buffer was one byte short for 56, 112, 153.. characters -> assert)
+    for n in range(3, 201):
+        add('tf/base58chk-decode/largest-%d-chars' % n, kind='tfline', line=['base58chk-decode', ('zsym', n)])
     # --- interactive command sequences at the prompt (the command functions are called on the state in which main() reached the prompt)
     SEQS = {'walk': ['print', 'stack', 'altstack', 'vfexec', 'step', 'print', 'step', 'stack', 'rewind', 'rewind', 'rewind', 'step', 'step', 'step', 'step', 'step', 'step', 'print', 'rewind', 'print', 'step'],
             'exec-sym': ['step', ('exec', ('sym', 2)), 'stack', ('exec', 'OP_DUP', ('sym', 1)), 'print', 'step', 'rewind'],
@@ -154,6 +157,10 @@ def run(E, ob):
         for i, x in enumerate(ob['line']):
             if i: chars.append(32)
             if isinstance(x, str): chars += list(x.encode())
+            elif x[0] == 'zsym':
+                # the largest base-58 number of that length except for its last digit, which is any letter or digit (sizing of the decoder's work buffer)
+                cs = sc(1, 'l%d_' % i); c = cs[0]; assume.append(z3.Or(z3.And(z3.UGE(c, 48), z3.ULE(c, 57)), z3.And(z3.UGE(c, 65), z3.ULE(c, 90)), z3.And(z3.UGE(c, 97), z3.ULE(c, 122))))
+                chars += [ord('z')] * (x[1] - 1) + cs; syms += cs
             else:
                 cs = sc(x[1], 'l%d_' % i); assume += [z3.And(c != 0, c != 32, c != 10, c != 34, c != 39, c != 92) for c in cs]; chars += cs; syms += cs          # no separators / quotes / escapes (line splitting is the kerl scenario)
         runs = hlib.spec_engine(E, 'w_fn_tf', [('in', chars + [0])], assume)
